@@ -33,19 +33,25 @@ def h_history(ctx, ops, role, driver="full"):
     clock = fresh_env(ctx)
     lite = driver == "lite"
     radio, nrf = new_lite(clock) if lite else new_rf24(clock)
-    dynamic = bool(ctx.choice("dynamic", 2))
+    mode = ctx.choice("dynamic", 3)  # 0 static, 1 dynamic, 2 static configuration followed by ack = True (dynamic again)
+    dynamic = mode != 0
     lens = STATIC_LENS if not lite else (7,) * 6  # the lite driver has one global static length
-    if dynamic:
+    if mode == 1:
         nrf.dynamic_payloads = True
     else:
         nrf.dynamic_payloads = False
         nrf.payload_length = list(STATIC_LENS) if not lite else 7
+        if mode == 2:
+            nrf.ack = True  # enables dynamic payload lengths again (EN_DPL; pipe 0 - every pipe on the lite driver)
     for p in range(6):
         nrf.open_rx_pipe(p, bytes([0x40 + p, 9, 8, 7, 6]))
     nrf.listen = (role == "rx")
     n_rx, n_tx = ctx.choice("n_rx", 4), (0, 1, 3)[ctx.choice("n_tx", 3)]
     for i in range(n_rx):
-        if dynamic:
+        if mode == 2 and not lite:
+            pipe = (0, 3, 5)[i]
+            ln = 4 if pipe == 0 else STATIC_LENS[pipe]
+        elif dynamic:
             pipe = ctx.int("rxpipe%d" % i, 0, 5)
             ln = (2, 32, 1)[i]
         else:
